@@ -29,6 +29,8 @@ use crate::jobgen::check::{check_grammar, Class};
 use crate::jobgen::types::Rec;
 use crate::obs::{LinkEv, C3};
 use crate::probe::{BStream, BoxExt, Ev, RecProbe, Trace, TraceSink, K_FAR, K_ITEM, K_TERMINATE, K_TS, K_WM};
+#[allow(unused_imports)]
+use crate::probe::K_FLUSH_BATCH;
 use crate::report::{Report, Verdict};
 use crate::rng::{hash_str, mix, Rng};
 use crate::run::{run_job, Layout, RunOpts};
@@ -446,12 +448,16 @@ pub fn run_c17(args: &Args, report: &mut Report) {
         let pname = policy.name.clone();
         let need = script.replicas.max(if binary { script2.replicas } else { 0 });
         let layout = if binary { script_layout(&mut crng, need, lockstep) } else { layout };
+        // one case in five: the observed Start is inside a replay loop (its frontier must be reset
+        // and work again in every round)
+        let in_loop = !binary && conn != 2 && crng.chance(1, 5);
+        let rounds = crng.usize(2, 4);
         let res = run_job(
             &layout,
             RunOpts { policy, log_links: true, ..Default::default() },
             move |ctx, _| {
                 let a = ctx.stream(ScriptSource::new(s1.clone(), turn.clone(), 80)).batch_mode(batch).boxed();
-                let connect = |s: BStream<Rec>| -> BStream<Rec> {
+                let connect = move |s: BStream<Rec>| -> BStream<Rec> {
                     match conn {
                         0 => s.shuffle().boxed(),
                         1 => s.group_by(|r: &Rec| r.k).drop_key().boxed(),
@@ -462,6 +468,18 @@ pub fn run_c17(args: &Args, report: &mut Report) {
                     let b = ctx.stream(ScriptSource::new(s2.clone(), turn2.clone(), 80)).batch_mode(batch).boxed();
                     // merge needs equal replication on both sides: go through a shuffle first
                     connect(a).map(|r| r).shuffle().merge(connect(b).shuffle()).probed(RecProbe::new(1, "after-start", &tr)).for_each(|_| {});
+                } else if in_loop {
+                    let tr2 = tr.clone();
+                    a.shuffle()
+                        .replay(
+                            rounds,
+                            0i64,
+                            move |s, _| connect(s.boxed()).probed(RecProbe::new(1, "after-start", &tr2)).drop_timestamps(),
+                            |d: &mut i64, r: Rec| *d += r.v,
+                            |a: &mut i64, d: i64| *a += d,
+                            |_| true,
+                        )
+                        .for_each(|_| {});
                 } else {
                     connect(a).probed(RecProbe::new(1, "after-start", &tr)).for_each(|_| {});
                 }
@@ -470,7 +488,7 @@ pub fn run_c17(args: &Args, report: &mut Report) {
         );
         let h = mix(hash_str(&format!("{:?}", script.steps)), hash_str(&format!("{}{binary}{conn}{batch:?}", layout.name())));
         let detail = |err: Option<String>| json!({"engine":"scripts.frontier","case":case,"shard":args.shard,"seed":args.seed,"layout":layout.name(),
-            "lockstep":lockstep,"binary_start":binary,"connection":conn,"batch":format!("{batch:?}"),"policy":pname,
+            "lockstep":lockstep,"binary_start":binary,"inside_replay_loop":in_loop,"connection":conn,"batch":format!("{batch:?}"),"policy":pname,
             "script": if script.steps.len() <= 40 { json!(script.steps.iter().map(|(r, e)| format!("r{r}:{e:?}")).collect::<Vec<_>>()) } else { json!(format!("{} steps on {} replicas", script.steps.len(), script.replicas)) },
             "error":err});
         if !res.all_ok() {
@@ -512,7 +530,7 @@ pub fn run_c17(args: &Args, report: &mut Report) {
         report.count("frontier_increases_by_watermark_arrival", incr.0);
         report.count("frontier_increases_by_replica_end", incr.1);
         report.seen("layouts", layout.name());
-        report.seen("modes", format!("lockstep={lockstep} binary={binary} conn={conn}"));
+        report.seen("modes", format!("lockstep={lockstep} binary={binary} conn={conn} in_loop={in_loop}"));
         if !errs.is_empty() {
             report.case(Verdict::Violated, Some(h), || detail(Some(errs.iter().take(3).cloned().collect::<Vec<_>>().join(" || "))));
         } else if f2_total > 0 {
@@ -934,6 +952,103 @@ pub fn run_reorder(args: &Args, report: &mut Report) {
         report.count("reorder_elements_checked", elems);
         if errs.is_empty() {
             report.case(Verdict::Held, (elems > 1).then_some(h), || detail(None));
+        } else {
+            report.case(Verdict::Violated, Some(h), || detail(Some(errs.iter().take(3).cloned().collect::<Vec<_>>().join(" || "))));
+        }
+    }
+}
+
+// ---------------------------------------------------------------------------------------------
+// C07: a result's timestamp is the maximum input timestamp (of its key)
+
+pub fn run_c07_ts(args: &Args, report: &mut Report) {
+    let rng = Rng::new(args.seed).fork(0xC07E).fork(args.shard);
+    let cases = if args.thorough { 300 } else { 24 };
+    let mut next_id = 0u64;
+    for case in 0..cases {
+        let mut crng = rng.fork(case);
+        let cfg = ScriptCfg { max_replicas: 5, max_steps_per_replica: 30, iterations: 1, keys: 4, ts_span: 12 };
+        let script = Arc::new(gen_script(&mut crng, &cfg, &mut next_id));
+        let lockstep = crng.chance(1, 2);
+        let layout = script_layout(&mut crng, script.replicas, lockstep);
+        let conn = *crng.pick(&[TOp::Shuffle, TOp::GroupBy, TOp::ToOne]);
+        let form = crng.below(7);
+        let traces = TraceSink::new();
+        let (s1, tr) = (script.clone(), traces.clone());
+        let turn = lockstep.then(|| Arc::new(AtomicUsize::new(0)));
+        let policy = if lockstep { crate::obs::Policy::none() } else { crate::engines::jobgen::random_policy(&mut crng) };
+        let batch = if crng.chance(1, 2) { BatchMode::fixed(crng.usize(1, 6)) } else { BatchMode::default() };
+        let res = run_job(
+            &layout,
+            RunOpts { policy, ..Default::default() },
+            move |ctx, _| {
+                let s = apply_top(ctx.stream(ScriptSource::new(s1.clone(), turn.clone(), 60)).batch_mode(batch).boxed(), conn);
+                let keyed = |k: &u32, v: i64| Rec { id: *k as u64, k: *k, v };
+                let out: BStream<Rec> = match form {
+                    0 => s.fold(0i64, |a, r: Rec| *a += r.v).map(|v| Rec { id: 0, k: u32::MAX, v }).boxed(),
+                    1 => s.reduce(|a, b| Rec { v: a.v + b.v, ..a }).map(|r| Rec { id: 0, k: u32::MAX, v: r.v }).boxed(),
+                    2 => s.fold_assoc(0i64, |a, r: Rec| *a += r.v, |a, b| *a += b).map(|v| Rec { id: 0, k: u32::MAX, v }).boxed(),
+                    3 => s.reduce_assoc(|a, b| Rec { v: a.v + b.v, ..a }).map(|r| Rec { id: 0, k: u32::MAX, v: r.v }).boxed(),
+                    4 => s.group_by(|r: &Rec| r.k).fold(0i64, |a, r: Rec| *a += r.v).map(move |(k, v)| keyed(k, v)).drop_key().boxed(),
+                    5 => s.group_by_fold(|r: &Rec| r.k, 0i64, |a, r: Rec| *a += r.v, |a, b| *a += b).map(move |(k, v)| keyed(k, v)).drop_key().boxed(),
+                    _ => s.group_by_reduce(|r: &Rec| r.k, |a, b| a.v += b.v).map(move |(k, r)| keyed(k, r.v)).drop_key().boxed(),
+                };
+                out.probed(RecProbe::new(1, "aggregate", &tr)).for_each(|_| {});
+            },
+            |_, _| (),
+        );
+        let form_name = ["fold", "reduce", "fold_assoc", "reduce_assoc", "group_by+fold", "group_by_fold", "group_by_reduce"][form as usize];
+        let h = mix(hash_str(&format!("{:?}", script.steps)), hash_str(&format!("{form_name}{conn:?}{}", layout.name())));
+        let detail = |err: Option<String>| json!({"engine":"scripts.aggregate_timestamps","case":case,"shard":args.shard,"seed":args.seed,"layout":layout.name(),
+            "form":form_name,"connection":format!("{conn:?}"),"lockstep":lockstep,"script_steps":script.steps.len(),"replicas":script.replicas,"error":err});
+        if !res.all_ok() {
+            report.case(Verdict::Inconclusive, None, || detail(Some(format!("job failed: {:?} {:?}", res.end, res.panic_messages()))));
+            continue;
+        }
+        // expected: per key (or overall) sum and maximum timestamp
+        let mut want: BTreeMap<u32, (i64, i64)> = BTreeMap::new();
+        for (_, e) in &script.steps {
+            if let SEl::T { key, ts, .. } = e {
+                let k = if form <= 3 { u32::MAX } else { *key };
+                let w = want.entry(k).or_insert((0, i64::MIN));
+                w.0 += ts;
+                w.1 = w.1.max(*ts);
+            }
+        }
+        let mut got: BTreeMap<u32, Vec<(i64, i64)>> = BTreeMap::new();
+        for t in traces.take() {
+            for e in &t.evs {
+                if e.kind == K_TS {
+                    got.entry(e.d[1] as u32).or_default().push((e.d[2] as i64, e.ts));
+                } else if e.kind == K_ITEM {
+                    got.entry(e.d[1] as u32).or_default().push((e.d[2] as i64, i64::MIN));
+                }
+            }
+        }
+        let mut errs = Vec::new();
+        for (k, (sum, maxts)) in &want {
+            match got.get(k).map(|v| v.as_slice()) {
+                Some([(v, ts)]) => {
+                    if v != sum {
+                        errs.push(format!("key {k}: aggregate {v}, sequential fold gives {sum}"));
+                    }
+                    if ts != maxts {
+                        errs.push(format!("key {k}: the result carries timestamp {ts}, the maximum input timestamp is {maxts}"));
+                    }
+                }
+                other => errs.push(format!("key {k}: {} results (expected exactly one)", other.map_or(0, |o| o.len()))),
+            }
+        }
+        for k in got.keys() {
+            if !want.contains_key(k) {
+                errs.push(format!("a result for key {k}, which does not occur in the input"));
+            }
+        }
+        report.count("timestamped_aggregation_jobs", 1);
+        report.count("timestamped_results_checked", want.len() as u64);
+        report.seen("timestamped_forms", form_name);
+        if errs.is_empty() {
+            report.case(Verdict::Held, (!want.is_empty()).then_some(h), || detail(None));
         } else {
             report.case(Verdict::Violated, Some(h), || detail(Some(errs.iter().take(3).cloned().collect::<Vec<_>>().join(" || "))));
         }
